@@ -42,6 +42,10 @@ def run(ctx):
                        "reference model of DESIGN 2.4 encodes the statement; unspecified choices are resynchronised, not judged"]
     # ISON / USERHOST answers that take several lines while the names change hands: one answer, one state
     common.run_storm_kinds(ctx, res, "c19:", ["queries"], 2, 10, jobs=2)
+    # presence and counts after a session that ended late (stuck behind its own socket): the nickname's new owner is
+    # listed, nobody is counted twice or not at all
+    common.run_stuck(ctx, res, sigs=("stuck:claimant-erased", "stuck:users", "stuck:conns", "stuck:contended-ghost",
+                                     "stuck:nick-never-freed"))
     return res
 
 
